@@ -27,6 +27,8 @@ def _iterm(x, what):
         raise TypeError(what)
     if isinstance(x, int):
         return z3.IntVal(x)
+    if isinstance(x, z3.ArithRef) and x.sort() == z3.IntSort():
+        return x
     if isinstance(x, SInt):
         return x.t
     if isinstance(x, SFloat):
